@@ -2,7 +2,7 @@
 # Builds the overlay venv offline: /venv's packages + /repo (working tree) + crosshair-tool/z3 from the wheelhouse.
 set -e
 cd "$(dirname "$0")/.."
-V=/verif/.venv
+V="$(pwd)/.venv"
 if [ ! -x "$V/bin/python" ] || ! "$V/bin/python" -c 'import crosshair, z3, jsonschema' 2>/dev/null; then
   rm -rf "$V"
   /venv/bin/python -m venv "$V"
